@@ -15,6 +15,7 @@ from nflows.flows.autoregressive import MaskedAutoregressiveFlow
 from nflows.transforms.autoregressive import MaskedAffineAutoregressiveTransform
 from nflows.transforms.base import Transform, CompositeTransform
 from nflows.transforms.coupling import AffineCouplingTransform
+from nflows.transforms.linear import NaiveLinear
 from nflows.nn import nets
 
 
@@ -146,6 +147,13 @@ def configs(events=((1,), (3,), (2, 2)), gen=None, randomize=False):
                            {'k': 'Flow', 'event': ev, 'tr': {'k': 'noCtx', 'e': 'AttributeError'}, 'emb': None,
                             'base': {'k': 'StandardNormal', 'event': ev}}, supports_ctx=False))
             if D >= 2:
+                # a linear layer with its weight cache ON, in front of a context-dependent transform (the sampling path calls the
+                # cached INVERSE before anything filled the cache)
+                out.append(Cfg('Flow(CachedLinear+CtxAffine,StandardNormal[%d])' % D,
+                               lambda D=D: fin(Flow(CompositeTransform([NaiveLinear(D, using_cache=True), CtxAffine(2)]), StandardNormal([D]))),
+                               ev, 2,
+                               {'k': 'Flow', 'event': ev, 'tr': {'k': 'ctxAware', 'C': 2}, 'emb': None,
+                                'base': {'k': 'StandardNormal', 'event': ev}}, ctx_dependent=True, in_c18=False))
                 out.append(Cfg('SimpleRealNVP[%d]' % D, lambda D=D: fin(SimpleRealNVP(D, 8, 2, 1)), ev, 2,
                                {'k': 'Flow', 'event': ev, 'tr': {'k': 'noCtx', 'e': 'RuntimeError'}, 'emb': None,
                                 'base': {'k': 'StandardNormal', 'event': ev}}, supports_ctx=False))
